@@ -536,6 +536,10 @@ def cat(I, ts, dim=0):
         shape = list(ref)
         shape[dim] = nd
         return STensor(shape, fn, _cat_dtype(ts))
+    # symbolic sizes with a common trailing block structure: [a, rest..] ++ [b, rest..] = [a+b, rest..]
+    blk = _block_cat(I, ts, sizes, dim, ref, conv_needed, r)
+    if blk is not None:
+        return blk
     # symbolic sizes: one new factor (flat along the cat axis)
     total = None
     for d in sizes:
@@ -569,6 +573,78 @@ def cat(I, ts, dim=0):
     shape[dim] = nd
     out = STensor(shape, fn2, _cat_dtype(ts))
     return out
+
+
+def _block_cat(I, ts, sizes, dim, ref, conv_needed, r):
+    """cat of tensors whose cat-axis digits are (block number, rest...) with the same `rest`"""
+    rests = None
+    leads = []
+    for d in sizes:
+        fs = list(d.factors)
+        if rests is None:
+            # candidate rest: try the longest common suffix later; start with this tensor's tail options
+            pass
+        leads.append(fs)
+    # common suffix of all factor lists, leaving at most one leading factor in each
+    minlen = min(len(f) for f in leads)
+    if minlen == 0:
+        return None
+    best = None
+    for L in range(minlen, 0, -1):
+        suf = leads[0][len(leads[0]) - L :]
+        ok = True
+        for f in leads:
+            tail = f[len(f) - L :]
+            if len(f) - L > 1:
+                ok = False
+                break
+            for x, y in zip(tail, suf):
+                if not _feq(I, x, y):
+                    ok = False
+                    break
+            if not ok:
+                break
+        if ok:
+            best = L
+            break
+    if best is None:
+        return None
+    L = best
+    rest = leads[0][len(leads[0]) - L :]
+    counts = [(f[0] if len(f) - L == 1 else 1) for f in leads]
+    if all(isinstance(c, int) for c in counts) and all(isinstance(x, int) for x in rest):
+        return None
+    offs, acc = [], z3.IntVal(0)
+    for c in counts:
+        offs.append(acc)
+        acc = acc + zint(c)
+    total_blocks = z3.simplify(acc)
+    nd_factors = [total_blocks] + list(rest)
+    nd = Dim(nd_factors)
+    if len(nd.factors) != len(nd_factors):
+        return None  # merged/normalised away: fall back to the flat path
+
+    def fn(idx):
+        comp = idx[dim]
+        b = zint(comp[0])
+        tail = tuple(comp[1:])
+        e = None
+        for n in range(len(ts) - 1, -1, -1):
+            t = ts[n]
+            sub = list(idx)
+            local = z3.simplify(b - offs[n])
+            has_lead = len(leads[n]) - L == 1
+            sub[dim] = ((local,) if has_lead else ()) + tail
+            for k in range(r):
+                if conv_needed[n][k]:
+                    sub[k] = convert_comps(ref[k], t.shape[k], idx[k])
+            v = t.at(sub)
+            e = v if e is None else z3.If(b < offs[n + 1] if n + 1 < len(offs) else z3.BoolVal(True), v, e)
+        return e
+
+    shape = list(ref)
+    shape[dim] = nd
+    return STensor(shape, fn, _cat_dtype(ts))
 
 
 def _cat_dtype(ts):
@@ -863,18 +939,20 @@ def getitem(I, t, key):
         elif isinstance(k, (list, tuple)):
             if all(isinstance(x, bool) for x in k) and k:
                 raise Unsupported("list-of-bool index")
-            if not all(isinstance(x, int) for x in k):
+            if not all(isinstance(x, (int, Sym)) and not isinstance(x, bool) for x in k):
                 raise Unsupported("list index with non-integer entries")
             n = d.concrete()
-            if n is None:
-                raise Unsupported("list index on a symbolic axis")
-            lst = []
-            for x in k:
-                if x < -n or x >= n:
-                    raise IN.RaisedEx("IndexError", "index out of range", I.ctx.loc)
-                lst.append(x % n)
-            plan.append(("gather", ax, lst))
-            adv.append(ax)
+            if n is None or any(isinstance(x, Sym) for x in k):
+                plan.append(("gatherS", ax, [_int_index(I, d, x) for x in k]))
+                adv.append(ax)
+            else:
+                lst = []
+                for x in k:
+                    if x < -n or x >= n:
+                        raise IN.RaisedEx("IndexError", "index out of range", I.ctx.loc)
+                    lst.append(x % n)
+                plan.append(("gather", ax, lst))
+                adv.append(ax)
         else:
             raise IN.RaisedEx("TypeError", f"invalid tensor index {type(k).__name__}", I.ctx.loc)
         ax += 1
@@ -891,7 +969,7 @@ def getitem(I, t, key):
             shape.append(st[2])
         elif st[0] == "adv":
             shape.append(st[2].val.shape[0])
-        elif st[0] == "gather":
+        elif st[0] in ("gather", "gatherS"):
             shape.append(Dim([len(st[2])]))
 
     def fn(idx):
@@ -915,6 +993,15 @@ def getitem(I, t, key):
                 else:
                     v = kt.val.at([idx[p]])
                     full[st[1]] = flat_comps(d, v)
+                p += 1
+            elif st[0] == "gatherS":
+                lst = st[2]
+                c = idx[p][0] if idx[p] else 0
+                if len(lst) == 1:
+                    full[st[1]] = lst[0]
+                else:
+                    nfac = len(lst[0])
+                    full[st[1]] = tuple(core.select_comp(c, len(lst), [(lambda e=e, f=f: zint(e[f])) for e in lst]) for f in range(nfac))
                 p += 1
             elif st[0] == "gather":
                 lst = st[2]
